@@ -2,6 +2,7 @@
   C20 — output conversions preserve trials.  Theorems about `SPModel.Api`.
 -/
 import SPModel.Api
+import SPProofs.Misc.Api
 
 namespace SPModel.C20
 open SPModel SPModel.Api
@@ -10,26 +11,72 @@ open SPModel SPModel.Api
 def Rect (e : Exp) (keys : List String) (n : Nat) : Prop :=
   ∀ k ∈ keys, ∃ col, e.get k = .ok col ∧ col.length = n
 
+/-- for a rectangular experiment the tuples are the transposed columns -/
+theorem toTuples_rect (e : Exp) (keys : List String) (n : Nat) (hne : keys ≠ []) (h : Rect e keys n) :
+    toTuples [e] keys = .ok [(List.range n).map (fun t => keys.map (fun k => (colOf e k).getD t ""))] := by
+  have hget : getCols e keys = .ok (keys.map (colOf e)) :=
+    getCols_ok e keys (fun k hk => (h k hk).imp fun _ hc => hc.1)
+  have hzip : zipCols (keys.map (colOf e)) =
+      (List.range n).map (fun t => (keys.map (colOf e)).map (fun col => col.getD t "")) := by
+    apply zipCols_rect
+    · simpa using hne
+    · intro c hc
+      obtain ⟨k, hk, rfl⟩ := List.mem_map.mp hc
+      obtain ⟨col, hcol, hlen⟩ := h k hk
+      rw [colOf_of_get hcol, hlen]
+  unfold toTuples
+  rw [List.mapM_cons, List.mapM_nil, hget]
+  simp only [hzip, List.map_map]
+  rfl
+
 /-- cell `(t, j)` of the tuples of experiment `e` is the `t`-th value of column `keys[j]` -/
 theorem toTuples_cell (e : Exp) (keys : List String) (n : Nat) (hne : keys ≠ []) (h : Rect e keys n) :
     ∃ rows, toTuples [e] keys = .ok [rows] ∧ rows.length = n ∧
       ∀ t, t < n → ∀ j, j < keys.length →
         ∃ col, e.get (keys.getD j "") = .ok col ∧ (rows.getD t []).getD j "" = col.getD t "" := by
-  sorry
+  refine ⟨_, toTuples_rect e keys n hne h, by simp, ?_⟩
+  intro t ht j hj
+  have hkj : keys.getD j "" = keys[j] := getD_of_lt keys "" j hj
+  obtain ⟨col, hcol, _⟩ := h (keys.getD j "") (by rw [hkj]; exact List.getElem_mem hj)
+  refine ⟨col, hcol, ?_⟩
+  rw [getD_of_lt _ _ t (by simpa using ht), List.getElem_map, List.getElem_range,
+    getD_of_lt _ _ j (by simpa using hj), List.getElem_map]
+  rw [hkj] at hcol
+  rw [colOf_of_get hcol]
 
 /-- the CSV rows are the header followed by the same tuples -/
 theorem csvRows_eq (e : Exp) (keys : List String) (n : Nat) (hne : keys ≠ []) (h : Rect e keys n) :
     ∃ rows, toTuples [e] keys = .ok [rows] ∧ csvRows e keys = .ok (keys :: rows) := by
-  sorry
+  refine ⟨_, toTuples_rect e keys n hne h, ?_⟩
+  cases keys with
+  | nil => contradiction
+  | cons c0 ks =>
+    obtain ⟨first, hfirst, hlen⟩ := h c0 (List.mem_cons_self ..)
+    unfold csvRows
+    simp only [hfirst, hlen]
+    rw [mapM_except_ok _ (fun t => (c0 :: ks).map (fun k => (colOf e k).getD t "")) (List.range n)]
+    intro r hr
+    apply mapM_except_ok
+    intro k hk
+    obtain ⟨col, hcol, hl⟩ := h k hk
+    have hr' : r < col.length := by rw [hl]; exact List.mem_range.mp hr
+    simp only [hcol, colOf_of_get hcol, List.getElem?_eq_getElem hr', getD_of_lt _ _ r hr']
 
 /-- with distinct keys a dict row lists the keys in order with the tuple's values -/
 theorem mkDict_distinct (keys vals : List String) (hk : keys.Nodup) (hl : keys.length = vals.length) :
     mkDict keys vals = keys.zip vals := by
-  sorry
+  unfold mkDict
+  have := mkDict_foldl_fresh (keys.zip vals) [] (by
+    rw [List.map_fst_zip (by omega)]; exact hk) (by simp)
+  simpa using this
 
 /-- hidden names never appear among the visible names -/
 theorem visibleNames_no_hidden (design : List (String × Bool)) :
     ∀ n ∈ visibleNames design, ∃ p ∈ design, p.1 = n ∧ p.2 = false := by
-  sorry
+  intro n hn
+  unfold visibleNames at hn
+  obtain ⟨p, hp, rfl⟩ := List.mem_map.mp hn
+  rw [List.mem_filter] at hp
+  exact ⟨p, hp.1, rfl, by simpa using hp.2⟩
 
 end SPModel.C20
